@@ -453,6 +453,7 @@ def run(fb, rep, tier, cfg):
     r8g(fb, rep)
     r8h(fb, rep)
     r8j(fb, rep)
+    r8k(fb, rep)
 
 
 def _result_ok_type(tstr):
@@ -568,3 +569,36 @@ def r8j(fb, rep):
             rep.violation(R, "array-repr-constant|%s" % t.split("<")[0].rsplit("::", 1)[-1], "deserialize_array allocates through `%s`, whose DataDef::initialize writes the constant representation %s whatever "
                           "the elements are: a deserialised `Array Byte` / `Array Int` / `Array Float` / `Array String` is no longer usable through its typed accessors "
                           "(from_utf8 fails, a &[i64] argument panics)" % (t, sorted({c if isinstance(c, str) else str(c[-1]) for c in consts}) or "(constant)"), b.where())
+
+
+def r8k(fb, rep):
+    """R8k — a deserialised symbol is rebuilt by the parsing constructor.  A `Symbol` is written as its complete name (with the `@`
+    global prefix and the `@line_col` suffix); its derived parts (`global`, `location`, which `as_pretty_str` / `AsRef<str>` use
+    to strip prefix and suffix) are computed only by `SymbolData::from(&str)`.  A deserialiser that builds the `SymbolData`
+    itself yields symbols whose field / constructor names keep the suffix: a record built with the `{ x }` shorthand in loaded
+    bytecode has the field `x@3_5`, and a by-name access panics.  Rule: in the deserialisation code of symbols (bodies of
+    `base/src/symbol.rs` and `vm/src/serialization.rs` that implement `Deserialize*` for `Symbol` or live in their `symbol`
+    modules) no `SymbolData` aggregate is built, and at least one of them goes through `From<&str>`."""
+    R = "R8k"
+    rep.rule(R, "deserialised symbols are rebuilt by the parsing constructor (From<&str>), never field by field")
+    n = 0
+    parsed = False
+    for b in fb.bodies.values():
+        if not (b.file.endswith("base/src/symbol.rs") or b.file.endswith("vm/src/serialization.rs")):
+            continue
+        low = b.id.lower()
+        if not ("deserialize" in low and "symbol" in low):
+            continue
+        n += 1
+        for i, j, pl, rv, ln in b.assigns():
+            if rv[0] == "agg" and rv[1][0] == "adt" and rv[1][1].endswith("symbol::SymbolData"):
+                rep.violation(R, "symbol-built-field-by-field|%s" % b.id.split("::{closure")[0], "%s builds a SymbolData itself when deserialising a symbol: the derived parts (global, location) are not "
+                              "computed from the name, so names with a position suffix or global prefix are no longer pretty-printed / interned as written in the source" % b.id, "%s:%s" % (b.file, ln))
+        for c in b.calls():
+            if "symbol::Symbol as core::convert::From<&" in c.res or "symbol::SymbolData<N> as core::convert::From<&'a str>" in c.res or c.res.endswith("Symbols::simple_symbol") or c.res.endswith("Symbols::symbol"):
+                parsed = True
+    if n and parsed:
+        rep.ok(R, "%d symbol-deserialisation bodies: symbols are rebuilt with From<&str> / the Symbols table" % n)
+    elif n:
+        rep.violation(R, "symbol-not-parsed", "no symbol deserialiser goes through the parsing constructor", "")
+    rep.floor(R, "symbol deserialisation bodies", n, 2)
